@@ -218,8 +218,12 @@ class Tensor(Funsor, metaclass=TensorMeta):
         if not subs:
             return self
 
-        # Handle diagonal variable substitution
+        # Handle diagonal variable substitution, including renaming onto
+        # a name that remains an input of self.
         var_counts = Counter(v for v in subs.values() if isinstance(v, Variable))
+        var_counts.update(
+            Variable(k, d) for k, d in self.inputs.items() if k not in subs
+        )
         subs = OrderedDict(
             (k, self.materialize(v) if var_counts[v] > 1 else v)
             for k, v in subs.items()
